@@ -138,15 +138,15 @@ class Subroutine:
     @property
     def cstructs(self):
         assert self.app_id is not None
-        encoding.assert_fits(self.app_id, encoding.APP_ID)
-        for version_part in self.netqasm_version:
+        # The integer values are what is checked and what is encoded
+        # (an int subclass can carry its value in `__int__`)
+        app_id = int(self.app_id)
+        netqasm_version = tuple(int(part) for part in self.netqasm_version)
+        encoding.assert_fits(app_id, encoding.APP_ID)
+        for version_part in netqasm_version:
             encoding.assert_fits(version_part, encoding.IMMEDIATE)
 
-        # Encode the integer values (an int subclass can carry its value in `__int__`)
-        metadata = encoding.Metadata(
-            netqasm_version=tuple(int(part) for part in self.netqasm_version),
-            app_id=int(self.app_id),
-        )
+        metadata = encoding.Metadata(netqasm_version=netqasm_version, app_id=app_id)
         instrs = self._encoded_instructions()
         return [metadata] + [instr.serialize() for instr in instrs]
 
